@@ -39,6 +39,7 @@ class BinarySearchTreeAdapted1D(Sampling):
         super().__init__()
         self.model = model
         self.axis = grid.axes[0]
+        self.grid = grid
         self.uniform = Uniform()
 
         self.intensity_of_jumps = intensity_of_jumps
@@ -70,9 +71,9 @@ class BinarySearchTreeAdapted1D(Sampling):
         while left != right:
             middle = (left + right) // 2
             l, r = left, middle  # choose left interval by default
-            a, b = 0.5 * (axis[max(0, l - 1)] + axis[l]), 0.5 * (
-                axis[r] + axis[min(len(axis) - 1, r + 1)]
-            )
+            # cell boundaries as everywhere else in the chain (they are not arithmetic mid-points on every grid)
+            a = self.grid.middle(self.grid.left_point(l), axis[l])
+            b = self.grid.middle(axis[r], self.grid.right_point(r))
             p = self._compute_probability(a, b)
 
             if current_p > p:
